@@ -449,10 +449,11 @@ def write_evidence(pid, prop, ctx, wall, nviol, level="model_checking"):
 
 
 def save_replay(pid, v):
-    os.makedirs(os.path.join(VERIF, "replays"), exist_ok=True)
+    rdir = os.environ.get("VERIF_REPLAY_DIR") or os.path.join(VERIF, "replays")      # (development: keep replays of concurrent runs apart)
+    os.makedirs(rdir, exist_ok=True)
     blob = json.dumps(dict(property=pid, what=v["what"], detail=v["detail"], **v["replay"]), indent=1)
     h = hashlib.sha1(blob.encode()).hexdigest()[:10]
-    path = os.path.join(VERIF, "replays", "%s-%s.json" % (pid, h))
+    path = os.path.join(rdir, "%s-%s.json" % (pid, h))
     open(path, "w").write(blob)
     return path
 
